@@ -590,6 +590,10 @@ def run(tier, procs=None, only=None):
     )
 
 
+# every real-library oracle of this property (each returns (reproduced, detail)); used to confirm structural facts that carry no replay of their own
+ALL_REPLAYS = [lambda c: replay_split(4)(c), lambda c: replay_split(3, 2)(c), replay_batch, replay_reuse]
+
+
 def replay(data):
     ok, detail = (replay_reuse if "reuse" in data.get("key", "") or "molecules-modified" in data.get("key", "") else replay_split(4))(data.get("cex") or {})
     print("replay:", detail)
